@@ -54,9 +54,15 @@ func c01HttpRun(r *zsim.Run) {
 		return rec.Code
 	}
 	benign := []int{0, 200, 201, 204, 301, 400, 401, 403, 404, 429, 499}
+	// most runs stay with one status: one wrongly counted as a failure then has nothing to hide behind
+	focus, focused := benign[o.Intn(len(benign))], o.Intn(3) > 0
+	r.Logf("focus status %d (%v)", focus, focused)
 	for i := 0; i < 200; i++ {
 		n := ran
 		c := benign[o.Intn(len(benign))]
+		if focused {
+			c = focus
+		}
 		got := do(c)
 		if ran == n {
 			r.Failf("benign-outcome-trips-breaker", "after %d responses with a status below 500 the route's breaker dropped a request (answered %d)", i, got)
